@@ -28,12 +28,19 @@ intval = z3.Function("intval", I, I)
 lv_tag = z3.Function("lv_tag", I, I)
 digit = z3.Function("digit", I, I, I)
 is_long_sub = z3.Function("is_int_subclass", I, B)      # Py_TPFLAGS_LONG_SUBCLASS of the object's type
+fval = z3.Function("fval", I, z3.Float64())             # value of an exact float object
 pow2u = z3.Function("pow2", I, I)          # 2**n for n beyond what the C code computes itself
 generic = z3.Function("generic_result", I, I, I, I, I, B)   # generic_result(opcode, a, b, c, r): r = CPython's own result
 
 PYLONG_SHIFT = 30
 OPCODES = {"pow": 1, "ipow": 1, "lshift": 2, "add": 3, "sub": 4, "mul": 5, "floordiv": 6, "mod": 7, "and": 8, "or": 9, "xor": 10,
            "rshift": 11, "truediv": 12, "richcmp": 13, "getitem": 14, "index": 15, "long": 16}
+
+
+PYNUMBER = {"Add": "add", "Subtract": "sub", "Multiply": "mul", "FloorDivide": "floordiv", "Remainder": "mod", "And": "and", "Or": "or",
+            "Xor": "xor", "Lshift": "lshift", "Rshift": "rshift", "TrueDivide": "truediv", "Power": "pow"}
+NB_SLOTS = {"nb_add": "add", "nb_subtract": "sub", "nb_multiply": "mul", "nb_floor_divide": "floordiv", "nb_remainder": "mod", "nb_and": "and",
+            "nb_or": "or", "nb_xor": "xor", "nb_lshift": "lshift", "nb_rshift": "rshift", "nb_true_divide": "truediv"}
 
 
 def rep(o):
@@ -158,6 +165,7 @@ class CExecPyObj(CExecL3):
             t = self.ev(st, argn[1])
             oid = self.oid(o)
             tn = t.obj if isinstance(t, Ptr) else None
+            st.path.append(z3.Not(z3.And(is_long(oid), is_float(oid))))      # an object has one exact type
             if tn == "global:PyLong_Type":
                 return from_bool(is_long(oid), ty)
             if tn == "global:PyFloat_Type":
@@ -208,6 +216,14 @@ class CExecPyObj(CExecL3):
             self.assumptions.add("%s(o) on an int returns its value, or -1 with OverflowError when it does not fit" % name)
             st.err = z3.If(fits, st.err, z3.IntVal(ERRS["OverflowError"]))
             return CV(ty, z3.If(fits, intval(o), z3.IntVal(-1)))
+        if name == "PyFloat_FromDouble":
+            v = self.ev(st, argn[0])
+            r = self.obj(st, ty, "new_float")
+            st.path.append(z3.And(is_float(r.off), fval(r.off) == v.t, z3.Not(is_long(r.off))))
+            self.assumptions.add("PyFloat_FromDouble(d) returns a new exact float with value d (allocation failure not modelled)")
+            return r
+        if name in ("__Pyx_NewRef", "Py_NewRef"):
+            return self.ev(st, argn[0])
         if name in ("Py_DECREF", "Py_INCREF", "Py_XDECREF", "Py_XINCREF", "__Pyx_DECREF", "__Pyx_INCREF"):
             for a in argn:
                 self.ev(st, a)
@@ -249,7 +265,18 @@ class CExecPyObj(CExecL3):
             self.ev(st, c0)
             if set(names) <= {"PyNumber_Power", "PyNumber_InPlacePower"}:
                 return self.generic_call(st, "pow", n["inner"][1:], n)
+            ops = {nm.replace("PyNumber_InPlace", "").replace("PyNumber_", "") for nm in names}
+            if len(ops) == 1 and list(ops)[0] in PYNUMBER:
+                return self.generic_call(st, PYNUMBER[list(ops)[0]], n["inner"][1:], n)
             raise OutOfSubset("conditional call of %s" % names)
+        if callee["kind"] == "MemberExpr" and callee.get("name", "") in NB_SLOTS:
+            # PyLong_Type.tp_as_number->nb_xxx(a, b): CPython's own int implementation of the operator
+            return self.generic_call(st, NB_SLOTS[callee["name"]], n["inner"][1:], n)
+        if callee["kind"] == "DeclRefExpr":
+            nm = callee["referencedDecl"]["name"]
+            key = nm.replace("PyNumber_InPlace", "").replace("PyNumber_", "")
+            if nm.startswith("PyNumber_") and key in PYNUMBER and key != "Lshift":
+                return self.generic_call(st, PYNUMBER[key], n["inner"][1:], n)
         if callee["kind"] == "DeclRefExpr" and callee["referencedDecl"]["name"] in ("PyNumber_Power", "PyNumber_InPlacePower"):
             return self.generic_call(st, "pow", n["inner"][1:], n)
         return CExecL3.ev_CallExpr(self, st, n)
